@@ -131,3 +131,16 @@ Print Assumptions C09_results_in_input_order.
 Print Assumptions C09_perm_invariant.
 Print Assumptions C09_regroup_invariant.
 Print Assumptions C09_buffers_depend_on_rows_only.
+
+(* ================================================================================================================ *)
+(* Tie (T) for the critical section: in the code GENERATED on this run from nodes/readouts/ridge.py (coq/gen/Gen_ridge.v), what a
+   worker does to the shared buffers is `XXT <- XXT + c ; YXT <- YXT + d` where (c, d) depends on the worker's own sequence only
+   -- not on the buffers, not on whether a lock was passed: the `read; write (t + c)` program of model/Conc.v.          *)
+From RV Require Import base.GenPrelude gen.Gen_ridge.
+
+Theorem C09_generated_worker_adds_its_own_contribution {F : Type} `{Num F} (b : bool) (XXT YXT X Y : list (list F)) (lock : bool) :
+  let X' := fst (GenRidge.prepare_inputs X Y b) in
+  GenRidge.partial_backward b XXT YXT X Y lock = (madd XXT (mmul (mT X') X'), madd YXT (mmul (mT Y) X')).
+Proof. intros X'. unfold GenRidge.partial_backward, GenRidge.accumulate. subst X'. destruct (GenRidge.prepare_inputs X Y b) eqn:E.
+  unfold GenRidge.prepare_inputs in E. injection E as <- <-. cbn [fst]. destruct lock; reflexivity. Qed.
+Print Assumptions C09_generated_worker_adds_its_own_contribution.
